@@ -37,12 +37,14 @@ def _keys(model, pairs):
 ALL_TRANSITIONS = _keys("Barrier", {
     "call": ["idle"], "ret": ["rejected", "woken", "done"], "acq0": ["called", "waiting", "woken"],
     "acq1": ["called", "waiting", "woken"], "enq": ["csWait"], "wake": ["csLast"],
-    "rel": ["csEnq", "reW", "reR", "csLast"]}) | {"reinit", "obsLock", "obs"} | {
+    "rel": ["csEnq", "reW", "reR", "csLast"], "fsamp": ["csEnq", "reW"], "fbump": ["csLast"]}) | {
+    "reinit", "obsLock", "obs", "obsF"} | {
     "xcall@ArgoVerif.Model.XBarrier.Pc.idle->ArgoVerif.Model.XBarrier.Pc.%s" % x for x in ("inPrim", "released", "skipped")} | {
     "xret@ArgoVerif.Model.XBarrier.Pc.%s" % x for x in ("released", "skipped")}
 # a non-ULT waiter re-takes the lock inside its wait loop only after a futex wake-up that was not meant for it; the
 # barrier only ever broadcasts, so these transitions (kept in the model for generality) cannot occur
-UNREACHABLE_HERE = _keys("Barrier", {"acq0": ["waiting", "woken"], "acq1": ["waiting", "woken"], "rel": ["reW", "reR"]})
+UNREACHABLE_HERE = _keys("Barrier", {"acq0": ["waiting", "woken"], "acq1": ["waiting", "woken"], "rel": ["reW", "reR"],
+                                      "fsamp": ["reW"]})
 
 
 def scenario_params(rng, large=False):
